@@ -309,3 +309,97 @@ Proof.
     by (vm_compute; right; left; reflexivity).
   destruct (H _ _ _ Hin) as [_ Hok]. discriminate Hok.
 Qed.
+
+(** * D. The closure of C05Act ([lreachable]: local actions, no crashes) *)
+Definition mop_ok_b (s : mstate) (o : mop) : bool :=
+  match o with
+  | MK (XOp o') => op_bounded_b o'
+  | MK _ => false
+  | MAct (ActPH p) => lph_okb (ms_k s) p
+  | _ => true
+  end.
+
+Lemma mop_ok_b_ok s o : mop_ok_b s o = true -> mop_ok s o.
+Proof.
+  destruct o as [x|h0 r0| | |h0 r0 key0|a]; cbn [mop_ok_b mop_ok]; try (intros _; exact I).
+  - destruct x as [o|k o|]; [apply op_bounded_b_ok|discriminate|discriminate].
+  - destruct a as [t sg|t sg|p]; cbn [lact_ok]; try (intros _; exact I).
+    intros H. exact (proj1 (lph_okb_facts _ _ H)).
+Qed.
+
+Fixpoint run_l (s : mstate) (ops : list mop) : option mstate :=
+  match ops with
+  | [] => Some s
+  | o :: rest =>
+      if mop_ok_b s o then
+        match mstep s o with Ok (s', _, _) => run_l s' rest | Panic _ => None end
+      else None
+  end.
+
+Lemma run_l_reachable ih ivs ops : forall s s',
+  lreachable ih ivs s -> run_l s ops = Some s' -> lreachable ih ivs s'.
+Proof.
+  induction ops as [|o rest IH]; intros s s' Hr; cbn [run_l]; [intros E; inversion E; subst; exact Hr|].
+  destruct (mop_ok_b s o) eqn:Ha; [|discriminate].
+  destruct (mstep s o) as [[[s1 r] io]|] eqn:Hs; [|discriminate].
+  apply IH. eapply lr_step; [exact Hr|apply mop_ok_b_ok; exact Ha|exact Hs].
+Qed.
+
+Definition after_l (ih : N) (ivs : valset) (ops : list mop) : mstate :=
+  match run_l (ms_init ih ivs) ops with Some s => s | None => ms_init ih ivs end.
+
+Lemma after_l_reachable ih ivs ops :
+  is_some (run_l (ms_init ih ivs) ops) = true -> lreachable ih ivs (after_l ih ivs ops).
+Proof.
+  unfold after_l. destruct (run_l _ ops) as [s|] eqn:E; [|discriminate]. intros _.
+  eapply run_l_reachable; [apply lr_init|exact E].
+Qed.
+
+(** the local validator's own header for height 2, round 0 *)
+Definition d_ph2 : ph := mk_ph x_ph2_hdr 0 (Some 7) (SProposal 7 [6] 0) [6].
+
+(** node D: a peer's proposed header, entrance with key 7, own prevote and precommit (height 1 committed),
+    entrance at height 2, OWN proposed header and own precommit for it (height 2 committed) *)
+Definition d_ops : list mop :=
+  [ MK (XOp e_ph);
+    MEnterK 1 0 (Some 7);
+    MActPrevote [9] (SVote 7 KPrevote 1 0 [9]);
+    MActPrecommit [9] (SVote 7 KPrecommit 1 0 [9]);
+    MEnterK 2 0 (Some 7);
+    MActPH d_ph2;
+    MSMRead;
+    MActPrecommit [8] (SVote 7 KPrecommit 2 0 [8]) ].
+(** node E: peers' messages only *)
+Definition e_ops : list mop :=
+  [ MK (XOp e_ph);
+    MK (XOp (OpPrecommit (ex_precommit 1 0 [1] [9])));
+    MK (XOp (OpPH d_ph2));
+    MK (XOp (OpPrecommit (ex_precommit 2 0 [1] [8]))) ].
+Definition mD : mstate := after_l 1 ex_vs d_ops.
+Definition mE : mstate := after_l 1 ex_vs e_ops.
+
+Definition dV : list sigd :=
+  cert_sigs (ms_k mD) ++ cert_sigs (ms_k mE) ++ [SVote 7 KPrevote 1 0 [9]; SVote 7 KPrevote 2 0 [8]].
+
+Example mirrors_agree_l_hypotheses_satisfiable :
+  vs_ok ex_vs = true /\ lreachable 1 ex_vs mD /\ lreachable 1 ex_vs mE /\
+  cert_sigs_in dV (ms_k mD) /\ cert_sigs_in dV (ms_k mE) /\ hash_binds_next (ms_k mD) (ms_k mE) /\
+  (forall h x1 cp1 x2 cp2, In (h, (x1, cp1)) (st_hdrs (ms_k mD)) -> In (h, (x2, cp2)) (st_hdrs (ms_k mE)) ->
+     byz_bound (chain_vals 1 ex_vs (st_hdrs (ms_k mD)) h) [] /\
+     A1m (chain_vals 1 ex_vs (st_hdrs (ms_k mD)) h) [] dV h /\
+     A2m (chain_vals 1 ex_vs (st_hdrs (ms_k mD)) h) [] dV h /\
+     A3m (chain_vals 1 ex_vs (st_hdrs (ms_k mD)) h) [] dV h) /\
+  commits (ms_k mD) = [(2, [8], 0); (1, [9], 0)] /\ commits (ms_k mE) = [(2, [8], 0); (1, [9], 0)].
+Proof.
+  split; [reflexivity|].
+  split; [apply after_l_reachable; vm_compute; reflexivity|].
+  split; [apply after_l_reachable; vm_compute; reflexivity|].
+  split; [apply cert_sigs_covers; intros sg H; unfold dV; apply in_or_app; left; exact H|].
+  split; [apply cert_sigs_covers; intros sg H; unfold dV; apply in_or_app; right; apply in_or_app; left; exact H|].
+  split; [apply hash_bindsb_ok; vm_compute; reflexivity|].
+  split.
+  { intros h x1 cp1 x2 cp2 I1 I2. apply (hyps_allb_ok 1 ex_vs (ms_k mD) dV (fun _ => []) h).
+    apply (common_heightsb_ok (hyps_allb 1 ex_vs (ms_k mD) dV (fun _ => [])) (ms_k mD) (ms_k mE))
+      with (e1 := (x1, cp1)) (e2 := (x2, cp2)); [vm_compute; reflexivity|exact I1|exact I2]. }
+  split; vm_compute; reflexivity.
+Qed.
